@@ -284,6 +284,30 @@ theorem Fld.mul_closed [Mul K] (a b : Fld K) :
   rw [Fld.mulBothOne_eq]
   rfl
 
+/-- a non-empty product has positive shape (it occupies the set of common pixels) -/
+theorem mulArr_pos_shape [Mul K] (a b p : Fld K) (ha : 0 < a.arr.s0 ∧ 0 < a.arr.s1) (hb : 0 < b.arr.s0 ∧ 0 < b.arr.s1)
+    (h : a.mulArr b = some p) : 0 < p.arr.s0 ∧ 0 < p.arr.s1 := by
+  unfold Fld.mulArr at h
+  by_cases hi : intersect a.extent b.extent = true
+  · simp only [hi, if_true, Option.some.injEq] at h
+    subst h
+    have hw := slices_wellformed a.extent b.extent (a.extent_valid ha) (b.extent_valid hb) hi
+    simp only
+    omega
+  · simp [hi] at h
+
+theorem Fld.mul_pos_shape [Mul K] (a b p : Fld K) (ha : 0 < a.arr.s0 ∧ 0 < a.arr.s1) (hb : 0 < b.arr.s0 ∧ 0 < b.arr.s1)
+    (h : a.mul b = some p) : 0 < p.arr.s0 ∧ 0 < p.arr.s1 := by
+  rw [Fld.mul_closed] at h
+  cases h1 : a.size1 <;> cases h2 : b.size1 <;> simp only [h1, h2, Bool.and_self, Bool.and_false, Bool.false_and,
+    Bool.false_eq_true, if_false, if_true] at h
+  · exact mulArr_pos_shape a b p ha hb h
+  · exact mulArr_pos_shape a (b.broadcastTo a) p ha ha h
+  · exact mulArr_pos_shape (a.broadcastTo b) b p hb hb h
+  · split at h
+    · simp only [Option.some.injEq] at h; subst h; exact ⟨Int.one_pos, Int.one_pos⟩
+    · cases h
+
 /-- (definitional: restates the first branch of `Fld.mul`) two one-element fields: the documented rule — the constants multiply when the offsets agree, and the product is
 empty otherwise -/
 theorem Fld.mul_scalar_scalar [Mul K] (a b : Fld K) (hab : (a.size1 && b.size1) = true) :
